@@ -49,17 +49,23 @@ func (s *AggregateSet) Merge(query *Query, set *AggregateSet) error {
 			value := set.FValues[storage]
 			s.addFloat(storage, value)
 		case Min:
-			value := set.FValues[storage]
-			s.addFloatMin(storage, value)
+			// A set without this value must not contribute a zero.
+			if value, ok := set.FValues[storage]; ok {
+				s.addFloatMin(storage, value)
+			}
 		case Max:
-			value := set.FValues[storage]
-			s.addFloatMax(storage, value)
+			if value, ok := set.FValues[storage]; ok {
+				s.addFloatMax(storage, value)
+			}
 		case Last:
-			value := set.SValues[storage]
-			s.setString(storage, value)
+			if value, ok := set.SValues[storage]; ok {
+				s.setString(storage, value)
+			}
 		case Len:
-			s.setString(storage, set.SValues[storage])
-			s.setFloat(storage, set.FValues[storage])
+			if value, ok := set.SValues[storage]; ok {
+				s.setString(storage, value)
+				s.setFloat(storage, set.FValues[storage])
+			}
 		default:
 			return fmt.Errorf("Unknown aggregation method '%v'", sc.Operation)
 		}
